@@ -611,7 +611,8 @@ func One(eco string, r *rand.Rand) string {
 	case "composer":
 		if chance(r, 1, 12) {
 			return pickE(eco, r, "dev-main", "dev-master", "dev-feature/x", "main", "master", "feature-foo", "1.x-dev", "dev-fix", "release/1.0",
-				"dev-2.x", "dev-10.x", "dev-1.9.x", "dev-1.10.x", "dev-15-fix-login", "dev-11", "dev-1a", "2.x-dev", "10.x-dev", "dev-9.x")
+				"dev-2.x", "dev-10.x", "dev-1.9.x", "dev-1.10.x", "dev-15-fix-login", "dev-11", "dev-1a", "2.x-dev", "10.x-dev", "dev-9.x",
+				"feature/a.x", "release/1.x", "feature/login.x", "hotfix/2.0.x")
 		}
 		s := pickE(eco, r, "", "", "v") + strings.Join(core(r, 1, 4, lz), ".")
 		switch r.IntN(5) {
